@@ -516,6 +516,7 @@ struct Rw<'a> {
     errors: Vec<String>,
     hoist_ctr: usize,
     rename_calls: &'a BTreeMap<String, String>,
+    ctor_types: &'a BTreeSet<String>,
     float_ctx: bool,
 }
 
@@ -712,6 +713,23 @@ impl<'a> VisitMut for Rw<'a> {
     }
 
     fn visit_expr_mut(&mut self, e: &mut Expr) {
+        // T14 (eta): `.map(Ctor)` with a tuple-struct constructor used as a function value -> `.map(|__c| Ctor(__c))`
+        // (Verus does not support constructors as function values; the closure is the same function)
+        if let Expr::MethodCall(mc) = e {
+            if mc.method == "map" && mc.args.len() == 1 {
+                let is_ctor = match &mc.args[0] {
+                    Expr::Path(p) if p.qself.is_none() && p.path.segments.len() == 1 => {
+                        self.ctor_types.contains(&p.path.segments[0].ident.to_string())
+                    }
+                    _ => false,
+                };
+                if is_ctor {
+                    let ctor = mc.args[0].clone();
+                    mc.args[0] = parse_quote!(|__c| #ctor(__c));
+                    self.site("T14-eta");
+                }
+            }
+        }
         // children first
         visit_mut::visit_expr_mut(self, e);
         let mut replacement: Option<Expr> = None;
@@ -1130,6 +1148,7 @@ fn main() {
             errors: vec![],
             hoist_ctr: 0,
             rename_calls: &rc_local,
+            ctor_types: &c.type_names,
             float_ctx: false,
         };
         let _ = rw.self_effectful;
